@@ -422,7 +422,18 @@ class Monitor:
                         self.add("C09", "over-limit-step-executed",
                                  f"{sid} executed sub-step(s) {ex[:2]} beyond the limit", sim=sid)
         else:
-            self.add("C05", _outcome_kind(result), f"run() ended with {result}")
+            cls = None
+            if result[0] == "deadlock" and self.cfg.get("lazy", True) and T.group_reentry():
+                cls = "lazy-wait-across-group-reentry"
+            self.add("C05", _outcome_kind(result), f"run() ended with {result}", cls=cls)
+            # an unexpected abort also means that the steps still demanded are never executed
+            for sid in T.sims:
+                lost = [x for x in self.pending(sid) if x[0] < self.until
+                        and x not in exp_loop.get(sid, [])]
+                if lost and not self.faulted:
+                    self.add("C02", "lost-step",
+                             f"{sid} lost demanded step(s) {lost[:3]}: run() aborted with "
+                             f"{_outcome_kind(result)}", sim=sid, cls=cls)
         return self.viol
 
 
